@@ -465,6 +465,88 @@ Proof.
 Qed.
 
 (* ======================================================================== *)
+(* roster files                                                               *)
+
+(* the id written is the id read back -- whatever it is, derived from the list or not --
+   and the members come back with their public key and address *)
+Theorem roster_file_roundtrip_spec id ids :
+  roster_file_roundtrip id ids = GOk (map strip_identity ids) (RId id).
+Proof.
+  unfold roster_file_roundtrip, roster_of_toml, roster_to_toml; simpl.
+  rewrite map_map. reflexivity.
+Qed.
+
+Definition identity_bare (i : identity) : Prop :=
+  i_priv i = None /\ i_desc i = [] /\ i_url i = [] /\ i_srv i = [].
+
+Lemma strip_bare i : identity_bare i -> strip_identity i = i.
+Proof. intros (A & B & C & D). destruct i; simpl in *; subst. reflexivity. Qed.
+
+Theorem roster_file_roundtrip_bare id ids :
+  Forall identity_bare ids -> roster_file_roundtrip id ids = GOk ids (RId id).
+Proof.
+  intros F. rewrite roster_file_roundtrip_spec. f_equal.
+  induction F as [|i l Hi F IH]; [reflexivity|]. simpl. rewrite (strip_bare i Hi), IH. reflexivity.
+Qed.
+
+(* C18-N1: the format has no place for per-service keys: they do not come back, and the
+   id that was written is then no longer the id of the list that was read -- for every
+   hash function, unless SHA-256 / uuid-SHA1 collide on exactly the two pre-images *)
+Definition n1_identity : identity :=
+  {| i_pub := k32 "S"; i_priv := None; i_addr := bs "tls://10.0.0.1:7770"; i_desc := []; i_url := [];
+     i_srv := [ {| sid_name := bs "a"; sid_suite := bs "Ed25519"; sid_pub := k32 "A"; sid_priv := None |} ] |}.
+
+Theorem roster_file_services_refuted :
+  exists ids, forall H256 U5, exists a got,
+    new_roster H256 U5 (map gmember_of ids) = RId a /\
+    roster_file_roundtrip a ids = GOk got (RId a) /\
+    got <> ids /\
+    exists a', new_roster H256 U5 (map gmember_of got) = RId a' /\
+      (a' = a ->
+       Collision H256 (roster_pre (roster_of got)) (roster_pre (roster_of ids)) \/
+       Collision U5 (roster_uuid_pre H256 (roster_of got)) (roster_uuid_pre H256 (roster_of ids))).
+Proof.
+  exists [n1_identity]. intros H256 U5. eexists _, _. split; [reflexivity|]. split; [reflexivity|].
+  split; [discriminate|]. eexists. split; [reflexivity|]. intros E.
+  set (r1 := roster_of [strip_identity n1_identity]) in *.
+  set (r2 := roster_of [n1_identity]) in *.
+  assert (E' : roster_id H256 U5 r1 = roster_id H256 U5 r2) by exact E.
+  destruct (roster_flat_injective H256 U5 32 r1 r2) as [F|[C|C]]; try exact E'.
+  - lia.
+  - repeat constructor.
+  - repeat constructor.
+  - discriminate F.
+  - left. exact C.
+  - right. exact C.
+Qed.
+
+Lemma check_roster_file_nil stored ids rs :
+  check_roster_file stored ids rs = [] <->
+  rs <> [] /\ all_equal_g rs = true /\
+  forall r, In r rs -> exists got ro, r = GOk got ro /\ res_eqb ro (RId stored) = true /\
+                                     list_eqb identity_eqb ids got = true.
+Proof.
+  unfold check_roster_file. rewrite dedup_nil. split.
+  - intros H. apply app_eq_nil in H as [H1 H2]. apply app_eq_nil in H2 as [H2 H3].
+    split; [destruct rs; [discriminate H1 | discriminate]|].
+    split; [destruct (all_equal_g rs); [reflexivity | discriminate H2]|].
+    intros r Hr. clear H1 H2. induction rs as [|x rs IH]; [contradiction|].
+    simpl in H3. apply app_eq_nil in H3 as [Hx Hrs]. destruct Hr as [->|Hr]; [|apply IH; assumption].
+    unfold roster_file_clause in Hx. destruct r as [| |n|got ro]; try discriminate Hx.
+    apply app_eq_nil in Hx as [Ha Hb]. apply clause_nil in Ha.
+    exists got, ro. split; [reflexivity|]. split; [exact Ha|].
+    destruct (list_eqb identity_eqb ids got); [reflexivity|].
+    destruct (list_eqb identity_eqb _ _); discriminate Hb.
+  - intros (Hne & Heq & Hall).
+    assert (E1 : match rs with [] => [7] | _ => [] end = []) by (destruct rs; [contradiction|reflexivity]).
+    rewrite E1, Heq. simpl. clear E1 Heq Hne.
+    induction rs as [|x rs IH]; [reflexivity|]. simpl.
+    destruct (Hall x (or_introl eq_refl)) as (got & ro & -> & Hro & Hids).
+    unfold roster_file_clause at 1. rewrite Hro, Hids. simpl.
+    apply IH. intros r Hr. apply Hall. right. exact Hr.
+Qed.
+
+(* ======================================================================== *)
 (* the checker                                                                *)
 
 Lemma check_obs_nil w ps rs :
